@@ -424,6 +424,8 @@ def run_family(ctx, prop):
             c = json.load(open(os.path.join(cdir, fn)))
             if 'app_scenario' in c:
                 continue            # application-session regressions: run by app_sessions.run_family_app
+            if c.get('kind') == 'hostile' or (c.get('replay') or {}).get('kind') == 'hostile':
+                continue            # byte-level hostile streams: run by sess_hostile.run_hostile (C07)
             cases.append((cfg_from_json(c['cfg']), script_from_json(c['script']), c.get('seed', 0), 'corpus:' + fn))
     foci = FOCUS[prop]
     for i in range(n):
@@ -508,6 +510,10 @@ def run_family(ctx, prop):
     if prop in ('C04', 'C05', 'C06'):
         import app_sessions as AS
         AS.run_family_app(ctx, prop)
+    # ---- C11 at the connectors (soup / fix / itch / ouch / sqf / asn1 connect_async): oracle scenarios of harness/login_app.py
+    if prop == 'C11':
+        import login_app
+        login_app.run_connectors(ctx)
 
 
 def replay_family(ctx, prop, path):
